@@ -148,6 +148,7 @@ class Executor:
 
     # ---------------------------------------------------------- truthiness
     def truth(self, st: State, v: V):
+        VV.CUR[0] = st
         k = v.kind
         if v.lit is not None and k in ('bool', 'int', 'real', 'str'):
             return z3.BoolVal(bool(v.lit))
@@ -251,6 +252,7 @@ class Executor:
 
     # ------------------------------------------------------------------
     def _stmt(self, st: State, node: ast.stmt) -> list[Outcome]:
+        VV.CUR[0] = st
         m = getattr(self, '_s_' + type(node).__name__, None)
         if m is None:
             raise Unsupported(f'statement {type(node).__name__} at line {node.lineno}')
@@ -357,6 +359,7 @@ class Executor:
         return [Outcome('normal', st)]
 
     def assign(self, st: State, tgt, v: V):
+        VV.CUR[0] = st
         if isinstance(tgt, ast.Name):
             st.locals[tgt.id] = v
         elif isinstance(tgt, ast.Attribute):
@@ -646,6 +649,8 @@ class Executor:
             for o in outs:
                 new_fresh = o.st.fresh - st.fresh
                 for f, arr in o.st.heap.items():
+                    if f not in before and f in o.st.heap0 and arr.eq(o.st.heap0[f]):
+                        continue      # first read inside the body, never stored
                     if f not in before or not arr.eq(before[f]):
                         written.add(f)
                         tg = None
@@ -698,6 +703,8 @@ class Executor:
         return targets
 
     def havoc_fields(self, hs: State, st: State, heap_mod: set, frame: dict):
+        if '$len' in heap_mod or '$elems' in heap_mod:
+            hs.snap = {}
         for f in heap_mod:
             cur = hs.field(f)
             new = z3.Const(fresh_name(f'H!{f}'), cur.sort())
@@ -865,6 +872,8 @@ class Executor:
         m = states[0].copy()
         m.pc = list(base[:plen])
         for s in states[1:]:
+            m.snap = {k: v for k, v in m.snap.items() if k in s.snap and s.snap[k][0] is v[0] and s.snap[k][1] is v[1]}
+        for s in states[1:]:
             m.fresh |= s.fresh
             m.nonneg |= s.nonneg
             m._typed &= s._typed
@@ -942,6 +951,7 @@ class Executor:
     # Expressions
     # ==================================================================
     def ev(self, st: State, node: ast.expr) -> V:
+        VV.CUR[0] = st
         m = getattr(self, '_e_' + type(node).__name__, None)
         if m is None:
             raise Unsupported(f'expression {type(node).__name__} at line {getattr(node, "lineno", 0)}')
@@ -1578,6 +1588,7 @@ class Executor:
         return self.call(st, fv, args, kwargs, node)
 
     def call(self, st, fv: V, args: list[V], kwargs: dict[str, V], node) -> V:
+        VV.CUR[0] = st
         if fv.kind != 'py':
             if fv.kind == 'ref' and fv.ty.cls and self.repo.resolve_method(fv.ty.cls, '__call__'):
                 return self.dunder(st, fv, '__call__', args, node)
@@ -1773,6 +1784,10 @@ class Executor:
         st.pc = o.st.pc
         st.alloc = o.st.alloc
         st.ghost = o.st.ghost
+        st.snap = o.st.snap
+        st.fresh = o.st.fresh
+        st.nonneg = o.st.nonneg
+        VV.CUR[0] = st
         st.decisions, st.dpos = dec
         st.try_stack = saved_try
         if o.kind == 'raise':
@@ -1936,6 +1951,8 @@ class Executor:
         """`self.f` / `x.f.g` (one location) or `*.f` (field f of every object)."""
         if loc.startswith('*.'):
             f = loc[2:]
+            if f in ('$len', '$elems'):
+                st.snap = {}
             cur = st.field(f)
             st.heap[f] = z3.Const(fresh_name(f'H!{f}'), cur.sort())
             return
